@@ -44,6 +44,13 @@ class ScriptClock: public Clock {
     char mTag;
 };
 
+// a reference clock that cannot be set (NTP, GPS: Clock::setNow() is documented as a no-op there) and reports its own time
+class ReadOnlyClock: public ScriptClock {
+  public:
+    explicit ReadOnlyClock(char tag): ScriptClock(tag) { mNow = 700000000; }
+    void setNow(acetime_t /*t*/) override {}
+};
+
 class VClock: public SystemClockLoop {
   public:
     VClock(Clock* ref, Clock* backup, uint16_t sync, uint16_t initial, uint16_t timeout):
@@ -66,6 +73,7 @@ static void make(int wiring, int sync, int initial, int timeout) {
     case 2: gRef = new ScriptClock('R'); gBackup = new ScriptClock('B'); break;
     case 3: gRef = new ScriptClock('R'); break;
     case 4: gBackup = new ScriptClock('B'); break;
+    case 6: gRef = new ReadOnlyClock('R'); gBackup = new ScriptClock('B'); break;
   }
   gClock = new VClock(gRef, gBackup, (uint16_t) sync, (uint16_t) initial, (uint16_t) timeout);
   gLog.clear();
